@@ -1,3 +1,4 @@
+pub mod docs;
 pub mod drive;
 pub mod fns;
 pub mod glue;
